@@ -98,10 +98,11 @@ pub(crate) fn keyval<'s, 'i>(
 
 // keyval = key keyval-sep val
 pub(crate) fn parse_keyval(input: &mut Input<'_>) -> ModalResult<(Vec<Key>, (Key, Item))> {
-    trace(
-        "keyval",
-        (
-            key,
+    trace("keyval", |input: &mut Input<'_>| {
+        let mut path = key.parse_next(input)?;
+        // The tables created by a dotted key nest the value just like inline tables do
+        let (_, v) = check_recursion_nested(
+            path.len() - 1,
             cut_err((
                 one_of(KEYVAL_SEP)
                     .context(StrContext::Expected(StrContextValue::CharLiteral('.')))
@@ -115,16 +116,15 @@ pub(crate) fn parse_keyval(input: &mut Input<'_>) -> ModalResult<(Vec<Key>, (Key
                 ),
             )),
         )
-            .try_map::<_, _, std::str::Utf8Error>(|(key, (_, v))| {
-                let mut path = key;
-                let key = path.pop().expect("grammar ensures at least 1");
+        .parse_next(input)?;
 
-                let (pre, v, suf) = v;
-                let pre = RawString::with_span(pre);
-                let suf = RawString::with_span(suf);
-                let v = v.decorated(pre, suf);
-                Ok((path, (key, Item::Value(v))))
-            }),
-    )
+        let key = path.pop().expect("grammar ensures at least 1");
+
+        let (pre, v, suf) = v;
+        let pre = RawString::with_span(pre);
+        let suf = RawString::with_span(suf);
+        let v = v.decorated(pre, suf);
+        Ok((path, (key, Item::Value(v))))
+    })
     .parse_next(input)
 }
